@@ -18,7 +18,7 @@ CONSTANTS
   CreateMayFail = TRUE
   TlsChoices = {TRUE, FALSE}
   Deviations = {}
-  Script = <<>>
+  Script <- NoScript
   Gen = "off"
   Depth = 0
 INVARIANTS TypeOK P_C16
